@@ -17,6 +17,7 @@ LEVEL = 'exploration'
 RULE = ('Runs are (a) precipitation worlds (stub binary/ternary 1-3 phases, real Al-Zr, Ni-Cr-Al) with the growth-sign monitor at every accepted step, '
         '(b) "static" runs: a short real Al-Zr trajectory, then at 3 sampled visited states the relations dG(x_alpha(g)) = g (three methods), monotonicity of x_alpha in g, '
         'sentinel monotonicity, sign change and monotonicity of dG around the planar solvus, agreement of the four driving-force methods. '
+        '(c) the same static relations evaluated directly on Al-Cr / AL13CR2 (site ratios 13:2, formula unit != mole of atoms) at generated states. '
         'Non-trivial = at least 5 sign checks with boundaries on both sides of R*, or at least 20 static relations evaluated; distinct = distinct record digest; '
         'signature = (kind, backend, phases, sides seen).')
 ASSUMPTIONS = ['Sign test skipped where the critical radius is clamped to the minimum radius, below the binary stability cut and inside a band delta around R* '
@@ -34,6 +35,15 @@ def plan(tier):
 
 
 def generate(rng, tier, index):
+    if index % 11 == 9 and index % 33 == 9:
+        # static clauses on a precipitate whose sublattice site ratios do not sum to one (AL13CR2 in Al-Cr, 13:2): free energies per formula
+        # unit and per mole of atoms differ there, which AL3ZR (0.75:0.25) cannot show
+        states = []
+        for _ in range(rng.randint(1, 2)):
+            T = rng.choice([650.0, 700.0, 750.0, round(rng.uniform(620, 780), 1)])
+            g = sorted(set([0.0] + [round(10 ** rng.uniform(1.7, 3.6), 2) for _ in range(rng.randint(3, 6))]))
+            states.append([round(10 ** rng.uniform(-3.3, -2.3), 6), T, g])
+        return {'kind': 'static_direct', 'system': 'alcr', 'states': states, 'cfg': {'backend': 'none', 'phases': ['AL13CR2']}}
     if index % 11 == 10:
         cfg = W.real_config('real_alzr', rng)
         return {'kind': 'static', 'cfg': cfg, 'ops': [{'op': 'solve', 'T': 10.0, 'it': 'euler', 'minf': 2e-2, 'maxf': 1.0}, {'op': 'solve', 'T': 100.0, 'it': 'euler', 'minf': 2e-2, 'maxf': 1.0},
@@ -44,8 +54,17 @@ def generate(rng, tier, index):
     return rec
 
 
+_DIRECT = {}
+
+
 def prepare(tier, recs):
-    W.preload([r['cfg']['backend'] for r in recs])
+    W.preload([r['cfg']['backend'] for r in recs if r['cfg']['backend'] != 'none'])
+    if any(r['kind'] == 'static_direct' for r in recs) and 'alcr' not in _DIRECT:
+        from kawin.thermo import BinaryThermodynamics
+        from kawin.tests import datasets as ds
+        t = BinaryThermodynamics(ds.NICRAL_TDB, ['AL', 'CR'], ['FCC_A1', 'AL13CR2'], drivingForceMethod='tangent')
+        t.setDFSamplingDensity(2000)
+        _DIRECT['alcr'] = (t, 2.0 / 15.0)
 
 
 class Sampler:
@@ -61,7 +80,7 @@ class Sampler:
             self.states.append((float(m.pData.composition[n, 0]), float(m.pData.temperature[n]), np.array(m.particleGibbs(), dtype=float, copy=True)))
 
 
-def static_clauses(therm, states, F, cnt):
+def static_clauses(therm, states, F, cnt, xbeta=0.25):
     off = float(getattr(therm, 'gOffset', 1.0))
     for (x, T, g_all) in states:
         g = np.unique(np.concatenate(([0.0], g_all[np.isfinite(g_all)])))
@@ -88,7 +107,7 @@ def static_clauses(therm, states, F, cnt):
         for method in ('tangent', 'sampling', 'approximate'):
             therm.setDrivingForceMethod(method)
             for xi, gi in zip(xs, gs):
-                if xi <= 0 or xi >= 0.24:
+                if xi <= 0 or xi >= 0.96 * xbeta:
                     continue
                 dg, _ = therm.getDrivingForce(xi, T, removeCache=True)
                 dg = float(np.squeeze(dg))
@@ -99,7 +118,7 @@ def static_clauses(therm, states, F, cnt):
         if stable[0]:
             xeq = float(xa[0])
             grid = [0.5, 0.9, 0.97, 1.03, 1.1, 1.5, 3.0] + ([x / xeq] if x > 0 else [])
-            grid = sorted(set(round(v, 6) for v in grid if 0 < v * xeq < 0.2))
+            grid = sorted(set(round(v, 6) for v in grid if 0 < v * xeq < 0.8 * xbeta))
             vals = {}
             for method in ('tangent', 'sampling', 'approximate', 'curvature'):
                 therm.setDrivingForceMethod(method)
@@ -133,6 +152,12 @@ def execute(rec):
     D = core.Digest()
     cnt = {k: 0 for k in ('steps', 'sign_checks', 'rcrit_clamped', 'static_states', 'static_relations', 'runs_real', 'runs_stub', 'sim_time', 'capped')}
     cfg = rec['cfg']
+    if rec['kind'] == 'static_direct':
+        therm, xbeta = _DIRECT[rec['system']]
+        therm.clearCache()
+        static_clauses(therm, [(x, T, np.array(g, dtype=float)) for x, T, g in rec['states']], F, cnt, xbeta=xbeta)
+        cnt['runs_real'] = 1
+        return core.result(F, sig='static_direct:' + rec['system'], nontrivial=cnt['static_relations'] >= 20, counters=cnt, digest='')
     m, backend = W.build_model(cfg, keep_log=False)
     cnt['runs_real' if cfg['backend'].startswith('real_') else 'runs_stub'] = 1
     mon = M.GrowthSignMonitor(m, cfg, F, cnt)
@@ -163,6 +188,14 @@ def execute(rec):
 
 
 def shrink_candidates(rec):
+    if rec['kind'] == 'static_direct':
+        for c in core.ddmin_candidates(rec['states']):
+            if c:
+                r = copy.deepcopy(rec); r['states'] = c; yield r
+        for i, st in enumerate(rec['states']):
+            if len(st[2]) > 2:
+                r = copy.deepcopy(rec); r['states'][i][2] = st[2][:max(2, len(st[2]) // 2)]; yield r
+        return
     for r in W.shrink_run_record(rec):
         yield r
     if rec.get('sample') and len(rec['sample']) > 1:
